@@ -96,7 +96,8 @@ fn common_toks() -> Vec<Tok> {
         Tok::Data { text: s("#d16 0x8d2f"), elems: vec![(5, "0x8d2f", 16, "1000110100101111")] },
         Tok::Data { text: s("#d3 0b101"), elems: vec![(4, "0b101", 3, "101")] },
         // an element that is a whole conditional expression: its row quotes all of it
-        Tok::Data { text: s("#d8 1 == 1 ? 0x55 : 0x44"), elems: vec![(4, "1 == 1 ? 0x55 : 0x44", 8, "01010101")] },
+        // ... and one that ends in a short slice: its row quotes the sliced expression too, not the `size part alone
+        Tok::Data { text: s("#d8 1 == 1 ? 0x55 : 0x44, 0x5`8"), elems: vec![(4, "1 == 1 ? 0x55 : 0x44", 8, "01010101"), (26, "0x5`8", 8, "00000101")] },
         Tok::Res { text: s("#res 1"), n: 1 },
         Tok::Align { text: s("#align 16"), n: 16 },
     ]
